@@ -20,7 +20,7 @@ const EDGE_CHARS: &[char] = &['\u{80}', '\u{bf}', '\u{c0}', '\u{ff}', '\u{13f}',
 /// a piece over the whole alphabet: every character below 64 (all possible set members), letters,
 /// and the edge characters above; up to 40 characters so that word-sized scanning has blocks to skip
 fn rand_piece(rng: &mut Rng) -> String {
-    if rng.chance(1, 400) {
+    if !cfg!(miri) && rng.chance(1, 400) {
         // one very long buffer (beyond 2^16 bytes), plain or with a multi-byte character across the 2^16 mark
         let n = *rng.pick(&[65535usize, 65536, 65537, 70000, 131073]);
         let mut s = "a".repeat(n);
